@@ -807,6 +807,7 @@ impl<'a> GeneratorState<'a> {
                     self.asm(STA, &ExprType::Tmp(false), pos, false)?;
                     self.sasm(PLA)?;
                     self.acc_in_use = true;
+                    self.tmp_in_use = true;
                     Ok(ExprType::Tmp(false))
                 } else {
                     self.local_label_counter_if += 1;
